@@ -238,6 +238,7 @@ def make_pool(seed, shard, size=8):
                 ext_sets.append(_ext_of(doc, loc))
                 doc = r2[0]
         exts.append(ext_sets)
+        _single_ext_index = len(exts) - 1
         # one free-text value that is legal under one interchange version only (backtick: 5010 extended set), the
         # same text in every pool document, so that a verdict remembered across versions would show
         for sg in doc.segs:
@@ -252,9 +253,24 @@ def make_pool(seed, shard, size=8):
                     break
             if hit:
                 break
+        cands = sorted({l.id for s in doc.segs for l, n in s.chain if l.children and l.children[0].kind == 'seg'})
+        # sibling pair: the same document with two different faults at ONE element - one that echoes a value (too long),
+        # one that does not (required element removed): what the first leaves behind must not show in the second
+        both = [c for c in faults.candidates(doc, 'required-removed') if c in set(faults.candidates(doc, 'too-long'))]
+        if both and len(docs) < size - 3:
+            loc = both[ch.integer(0, len(both) - 1)]
+            ra = faults.inject(doc, 'too-long', loc, ch.seed())
+            rb = faults.inject(doc, 'required-removed', loc, ch.seed())
+            if ra is not None and rb is not None:
+                del exts[_single_ext_index]
+                for dd in (ra[0], rb[0]):
+                    docs.append(dd.text())
+                    types.append(e['file'])
+                    lids.append(cands)
+                    exts.append(list(ext_sets))
+                continue
         docs.append(doc.text())
         types.append(e['file'])
-        cands = sorted({l.id for s in doc.segs for l, n in s.chain if l.children and l.children[0].kind == 'seg'})
         lids.append(cands)
     fx = fixtures.all_texts()
     for j in range(size - len(docs)):
